@@ -22,4 +22,29 @@ META = {
 }
 
 ALL = ["C%02d" % i for i in range(1, 20)]
+
+_COMPOSE_NOTE = 'Trusts the reference model (harness/compose/model.go, harness/cbmodel, harness/rlmodel) and the clock/stopwatch hooks; sequential executions only (real hedging and racing timers are covered by C07/C09); statement-open corners are discarded or checked weakly and counted in the evidence.'
+
+META.update({
+    "C10": dict(
+        text="Model-based property testing focused on fallbacks: a fallback (result, error or function kind, generated handle conditions over the full error universe) is placed outermost around generated inner compositions that can return every kind of outcome; the reference model decides whether the fallback applies; compared: invocation count of the fallback function, the execution it receives (LastResult/LastError = the failed outcome), OnFallbackExecuted payload, policy-level OnSuccess/OnFailure, the returned outcome and the completion verdict. Sampling, not proof.",
+        design_ref="DESIGN.md section 6, C10", note=_COMPOSE_NOTE,
+        technique="property-based testing (rapid): differential testing against the sequential composition model, fallback-focused generator profile",
+    ),
+    "C11": dict(
+        text="Model-based property testing of the cache policy over generated histories: one or two cache policies share an instrumented cache; configured and context keys, CacheIf conditions, pre-populated content, direct writes/deletes and stateful policies inside the cache are generated; compared after every step: every Get/Set the policy issued, the full cache content, the returned outcome, and the state and every listener of the policies inside (which must not move on a hit). Sampling, not proof.",
+        design_ref="DESIGN.md section 6, C11", note=_COMPOSE_NOTE,
+        technique="property-based testing (rapid): stateful model-based testing (model map in lock-step with an instrumented cache) over generated histories",
+    ),
+    "C16": dict(
+        text="Model-based property testing of every listener: all listeners of all eight builders and of the executor are registered into one recorder; the reference model predicts, per execution, each listener's call sequence with its result payload; the recorded calls are compared per listener, plus causal-order invariants (OnRetryScheduled before its OnRetry, OnDone last) and connected breaker state paths with matching specific/generic listeners. Sampling, not proof.",
+        design_ref="DESIGN.md section 6, C16", note=_COMPOSE_NOTE,
+        technique="property-based testing (rapid): predicted event multiset per listener from the sequential composition model + order invariants over the recorded log",
+    ),
+    "C17": dict(
+        text="Model-based property testing of the execution statistics: at every observation point (function entry, every listener, fallback functions, completion events) Attempts/Executions/Retries/Hedges, IsFirstAttempt/IsRetry/IsHedge and LastResult/LastError are compared with the reference model's prediction, and invariants over the recorded log are checked (Attempts == 1 + Retries + Hedges, constant StartTime, monotone elapsed and attempt start times). Hedged (overlapping) executions are checked by the C09 harness. Sampling, not proof.",
+        design_ref="DESIGN.md section 6, C17", note=_COMPOSE_NOTE,
+        technique="property-based testing (rapid): predicted observations from the sequential composition model + counter identities over the recorded log",
+    ),
+})
 NOT_APPLICABLE = [dict(property_id=p, reason="check not built yet in this session (work in progress; DESIGN.md section 6 describes the planned property-based check)") for p in ALL if p not in META]
